@@ -210,4 +210,71 @@ PROPS = {
         "require_counters": ["files_written", "reads_same-forest", "reads_other-forest", "reads_forest-from-file", "empty_root_lists", "refcounts_checked"],
         "assumptions": ASSUME_COMMON,
     },
+    "C02": {
+        "rule": ("each case: one scripted history (20-70 steps quick, up to 160 thorough) over 2-4 forests of one value kind (MT bool/int/"
+                 "real, EV+) plus a boolean forest, sets or relations with every reduction rule, random storage / memory-manager / "
+                 "deletion policy per forest and random compute-table style/policy/size; steps: build from minterms, rebuild along "
+                 "another route, binary operations, comparisons, complement, copies between forests, edge assignment and release, cache "
+                 "clears, stale removal, churn, exchange-file round trips.  After EVERY step the structural audit M1 walks every active "
+                 "node of every forest (three unpacked views agree, hashes agree with the packed hash, unique-table lookup returns "
+                 "the node, no duplicates, children live and strictly below, rule-specific clauses, edge-value normalisation, node "
+                 "count == live nodes == unique-table entries), M2 recounts incoming counts, M3 recounts cache counts, M5 watches "
+                 "handle issue/recycle.  non-trivial = more than 20 nodes audited; distinct = hash of the script"),
+        "passes": {
+            "quick": [P("main", "asan", 700)],
+            "thorough": [P("main", "asan", 12000)],
+        },
+        "require_counters": ["audit_nodes", "audit_primed_nodes", "audit_singleton_edge_checks", "audit_stored_sparse", "audit_stored_full",
+                             "refcounts_checked", "cachecount_audits", "script_binops", "script_copies", "script_churns", "handles_reissued"],
+        "assumptions": ASSUME_COMMON,
+    },
+    "C01": {
+        "rule": ("each case: a scripted history (40-110 steps quick, up to 220 thorough; 22% extra 'rebuild an existing function along "
+                 "another route' steps: shuffled minterm collections, point-by-point accumulation, two half collections combined) over "
+                 "2-4 forests of one value kind with few distinct values, followed by: release everything, clear caches, churn every "
+                 "forest so that handles are recycled, rebuild remembered functions twice each.  After every step the new edge is "
+                 "compared with every held edge of the same forest: model tables equal <=> edges equal (==, both directions, and "
+                 "!=); results of operations, copies through other forests and exchange-file round trips take part; M1 audit "
+                 "(unique-table lookup of every active node, hash agreement) every 12 steps.  MT-real values only in the exact lane; "
+                 "non-trivial = at least one pair with equal functions AND one with different functions compared; distinct = hash of the script"),
+        "passes": {
+            "quick": [P("main", "asan", 600)],
+            "thorough": [P("main", "asan", 15000)],
+        },
+        "require_counters": ["canonicity_pairs_checked", "canonicity_pairs_equal_functions", "functions_rebuilt_after_churn", "handles_reissued",
+                             "script_copies", "script_file_roundtrips"],
+        "assumptions": ASSUME_COMMON,
+    },
+    "C12": {
+        "rule": ("each case: one script (30-90 steps; one in five: 150-300 steps of heavy churn on a small domain) executed under the "
+                 "default policy (either/array+grid/optimistic) and under 3-6 further policy assignments (quick) or all 35 other uniform "
+                 "combinations of storage {either, full-only, sparse-only} x memory manager {original grid, array+grid, malloc, heap} x "
+                 "deletion {optimistic, pessimistic, never} (thorough); per step the result equals the model table and its node count "
+                 "equals the reference configuration's; held edges re-evaluated; M1-M3 audits every 20 steps and at the end; "
+                 "canonicity invariant on; ASan on all (malloc manager: dangling node pointers become use-after-free reports).  "
+                 "non-trivial = script of at least 30 steps; distinct = hash of the script"),
+        "passes": {
+            "quick": [P("main", "asan", 300)],
+            "thorough": [P("main", "asan", 1500)],
+        },
+        "require_counters": ["configurations_run", "memman:orig_grid", "memman:array_grid", "memman:malloc", "memman:heap", "storage:1", "storage:2", "deletion:1", "deletion:2"],
+        "assumptions": ASSUME_COMMON,
+    },
+    "C07": {
+        "rule": ("each case: one script (60-140 steps; one in four 250-400 steps) with at least one pessimistic and one optimistic "
+                 "forest, executed (a) with all caches cleared after every step and (b) under 3-5 (quick) or 13 (thorough: all 4 "
+                 "styles x 3 stale policies, + default style at maximum size 1024) compute-table settings; per step: result == model "
+                 "table, node count == reference run; M3 recounts every node's cache count against compute_table::"
+                 "countAllNodeEntries every 6 steps (handles of deleted-but-cached nodes included); M5 asserts no handle is "
+                 "recycled/re-issued with a non-zero cache or incoming count; scripts release operands and results so entries "
+                 "outlive their nodes, churn re-issues handles, and the same operations are asked again.  non-trivial = a case in "
+                 "which non-zero cache counts were audited and handles were re-issued; distinct = hash of the script"),
+        "passes": {
+            "quick": [P("main", "asan", 260)],
+            "thorough": [P("main", "asan", 2500)],
+        },
+        "require_counters": ["configurations_run", "cachecount_audits", "cachecounts_nonzero_checked", "cache_entries_on_deleted_handles",
+                             "handles_reissued", "ct_style:0", "ct_style:1", "ct_style:2", "ct_style:3", "ct_stale:0", "ct_stale:2", "ct_max:1024"],
+        "assumptions": ASSUME_COMMON,
+    },
 }
